@@ -4,6 +4,7 @@
    Model/ParserSkel.v mirrors parser.go parseTpl / processCtl (block tags) and
    parser_target.go; Spec/Balanced.v is the stack checker and the grammar. *)
 From DT Require Import Model.Bytes Model.ParserSkel Spec.Balanced Proofs.ParserProofs.
+From DT Require Import Model.Tree Model.Regex Model.ParserRe Model.Parser Proofs.RegexProofs Proofs.ParserModelProofs Gen.RegexTable.
 Local Open Scope byte_scope.
 
 (* ---- Part 1: the scan ---- *)
@@ -76,6 +77,61 @@ Theorem C12_parse : forall (classify : bytes -> tag) (src : bytes),
                /\ balanced (ctl_tags classify toks) = true.
 Proof. exact parse_ok_spec. Qed.
 Print Assumptions C12_parse.
+
+(* ---- Part 3: the parser itself (Model/Parser.v: bytes -> tree), for EVERY table of expressions
+        and every content of the registries.  The table of the code as it is now is regenerated
+        from the source on every run; the correspondence evaluates exactly this function. ---- *)
+
+(* Parse is total: the model never runs out of fuel, whatever the source *)
+Theorem C12_parser_total : forall (T : retab) (E : penv) keep src, parse T E keep src <> PFuel.
+Proof. exact parse_total. Qed.
+Print Assumptions C12_parser_total.
+
+(* building the nodes changes nothing about acceptance: the full parser and the nesting model of
+   Part 2 agree on the error flag, the counters and the position, from any snapshot *)
+Theorem C12_parser_refines_nesting : forall (T : retab) (E : penv) f t p inp acc, (length inp < f)%nat ->
+  match parse_nodes T E f t p inp acc, parse_tpl f t p (ctl_tags (classify T E) inp) with
+  | Some (err, p', rest, _), Some (err', p'', rest') =>
+      err = err' /\ p' = p'' /\ rest' = ctl_tags (classify T E) rest
+  | _, _ => False
+  end.
+Proof. exact parse_nodes_skel. Qed.
+Print Assumptions C12_parser_refines_nesting.
+
+(* the property itself, for the parser model: a cleaned source is accepted iff its tags are all
+   closed and the block tags -- as this parser classifies them -- are properly nested *)
+Theorem C12_parser_accepts_iff_nested : forall (T : retab) (E : penv) src,
+  (exists t, parse_clean T E src = POk t) <->
+  exists toks, tokens src = Some toks /\ concat (map tok_text toks) = src
+               /\ balanced (ctl_tags (classify T E) toks) = true.
+Proof. exact parse_accepts_iff_balanced. Qed.
+Print Assumptions C12_parser_accepts_iff_nested.
+
+(* the matcher under the tag classification is a matcher: it answers "match" exactly when some
+   substring belongs to the expression (declarative semantics Mt), and the match it reports
+   starts at the leftmost position where one exists *)
+Theorem C12_matcher_spec : forall r s, re_ok r = true ->
+  (re_match r s = true <-> exists a x b, s = a ++ x ++ b /\ Mt r (length a) x b).
+Proof. exact re_match_spec. Qed.
+Print Assumptions C12_matcher_spec.
+
+Theorem C12_matcher_leftmost : forall r s cs, re_ok r = true -> re_find r s = Some cs ->
+  exists a b, cap_get cs 0 = Some (a, b) /\ (a <= b)%nat /\ (b <= length s)%nat /\
+              Mt r a (slice s a b) (skipn b s) /\
+              (forall a' x rest, (a' < a)%nat -> skipn a' s = x ++ rest -> ~ Mt r a' x rest).
+Proof. exact re_find_leftmost. Qed.
+Print Assumptions C12_matcher_leftmost.
+
+(* the expressions of the pinned source satisfy the matcher's side condition (re-proved for the
+   regenerated table on every run: GenNow.TableOk.now_table_ok) *)
+Example C12_pinned_table_ok : retab_ok pinned = true.
+Proof. vm_compute. reflexivity. Qed.
+
+Example C12_parser_examples :
+  parse pinned (mkPenv [] [] []) false ["{";"%";" ";"i";"f";" ";"a";" ";"=";"=";" ";"1";" ";"%";"}";"x"] = PErr
+  /\ parse pinned (mkPenv [] [] []) false ["a";"{";"%";"=";" ";"x";" ";"%";"}";"b"]
+      = POk [NRaw ["a"]; NTpl ["x"] [] [] false []; NRaw ["b"]].
+Proof. split; vm_compute; reflexivity. Qed.
 
 (* ---- non-vacuity ---- *)
 
